@@ -386,6 +386,17 @@ func c08cells(thorough bool) []C08Cell {
 			}
 		}
 	}
+	// providers that run ahead into a buffered sink (100 items): bounds beyond the buffer, so that the
+	// provider meets a full sink and the last items go through its blocking path
+	for _, k := range kinds() {
+		if !(strings.HasPrefix(k.Name, "grpc/") || strings.HasSuffix(k.Name, "/scenario")) {
+			continue
+		}
+		out = append(out,
+			C08Cell{Kind: k.Name, Limit: 103, Passes: 0, Entries: 2, Consumers: 1, Bound: 0},
+			C08Cell{Kind: k.Name, Limit: 0, Passes: 51, Entries: 2, Consumers: 1, Bound: 0},
+			C08Cell{Kind: k.Name, Limit: 101, Passes: 60, Entries: 2, Consumers: 2, Bound: 0})
+	}
 	return out
 }
 
